@@ -255,6 +255,47 @@ func declaresVar(stmts []ast.Stmt) bool {
 	return false
 }
 
+// whether the stmt list declares the name of the ident again in its own scope
+func redeclares(stmts []ast.Stmt, expr ast.Expr) bool {
+	ident, ok := expr.(*ast.Ident)
+	if !ok || ident.Name == "_" {
+		return false
+	}
+	for _, stmt := range stmts {
+		switch stmt := stmt.(type) {
+		case *ast.AssignStmt:
+			if stmt.Tok != token.DEFINE {
+				continue
+			}
+			for _, lhs := range stmt.Lhs {
+				if id, ok := lhs.(*ast.Ident); ok && id.Name == ident.Name {
+					return true
+				}
+			}
+		case *ast.DeclStmt:
+			decl, ok := stmt.Decl.(*ast.GenDecl)
+			if !ok {
+				continue
+			}
+			for _, spec := range decl.Specs {
+				switch spec := spec.(type) {
+				case *ast.ValueSpec:
+					for _, id := range spec.Names {
+						if id.Name == ident.Name {
+							return true
+						}
+					}
+				case *ast.TypeSpec:
+					if spec.Name.Name == ident.Name {
+						return true
+					}
+				}
+			}
+		}
+	}
+	return false
+}
+
 func identicalWithoutTypeParam(x, y types.Type) bool {
 	unwrapTyParam := func(ty types.Type) types.Type {
 		if named, ok := ty.(*types.Named); ok {
